@@ -178,6 +178,11 @@ def _direct(ift, kl, o, op, rng):
         if p.notes:
             return ("contract", "mode %s: %s" % (MODE_NAME[mode], p.notes[0]))
     tol = 1e-10 if kl.tol is None else max(kl.tol, 1e-12)
+    decl = kl.decl(o["cfg"])
+    if decl is not None:
+        msg = check_decl(ift, op, decl)
+        if msg:
+            return ("declared-domain", "declared " + msg)
     # real probes agree with complex probes, complex-linearity
     for mode, p in pr.items():
         if p.R is not None and p.r is not None:
@@ -253,6 +258,34 @@ def _direct(ift, kl, o, op, rng):
             if not close(got, E, tol):
                 return ("action", "mode %s: dense action differs from the documented definition (max diff %.3g)"
                         % (MODE_NAME[mode], float(np.abs(got - E).max())))
+    return None
+
+
+def check_decl(ift, op, decl):
+    """the declared domain/target consist of the documented sub-domains (kind, shape, distances, identity)"""
+    for side, entries in decl.items():
+        dom = op.target if side == "target" else op.domain
+        other = op.domain if side == "target" else op.target
+        if not isinstance(dom, ift.DomainTuple):
+            continue
+        if len(dom) != len(entries):
+            return "%s has %d sub-domains, documented: %d" % (side, len(dom), len(entries))
+        for j, (d, e) in enumerate(zip(dom, entries)):
+            ok = True
+            if e[0] == "same":
+                ok = (d == other[e[1]])
+            elif e[0] == "U":
+                ok = isinstance(d, ift.UnstructuredDomain) and list(d.shape) == list(e[1])
+            elif e[0] == "RG":
+                ok = isinstance(d, ift.RGSpace) and list(d.shape) == list(e[1])
+                if ok and e[2] is not None:
+                    ok = bool(np.allclose(np.array(d.distances, dtype=float), np.array(e[2], dtype=float), rtol=1e-12, atol=0))
+                if ok and e[3] is not None:
+                    ok = bool(d.harmonic) == bool(e[3])
+            elif e[0] == "cls":
+                ok = type(d).__name__ == e[1] and (e[2] is None or list(d.shape) == list(e[2]))
+            if not ok:
+                return "%s sub-domain %d is %r, documented: %r" % (side, j, d, e)
     return None
 
 
@@ -401,6 +434,14 @@ class C02(C.Check):
         m, n = (2 * o["m"], 2 * o["n"]) if rform else (o["m"], o["n"])
         inv = "(Some %s)" % cq["inv"] if "inv" in cq else "None"
         term = "case_ok %s %s %d %d %s" % (cq["spec"], inv, m, n, O.cl(impl))
+        if "unstructured" in cq and isinstance(o["tgt_shapes"], list):
+            op = o.get("_op")
+            flags = [type(d).__name__ == "UnstructuredDomain" and type(s).__name__ != "UnstructuredDomain"
+                     for d, s in zip(op.target, op.domain)]
+            was_u = [type(s).__name__ == "UnstructuredDomain" for s in op.domain]
+            # sub-domains that were structured: must be unstructured afterwards exactly where the formula says
+            term += " && forallb (fun '(w, (a, b)) => orb w (Bool.eqb a b)) (combine %s (combine %s %s))" % (
+                O.cbl(was_u), cq["unstructured"], O.cbl(flags))
         if "extra" in cq:
             term += " && " + cq["extra"]
         if "tgt" in cq and isinstance(o["tgt_shapes"], list):
